@@ -105,6 +105,7 @@ func runSenderHistory(r *h.Report, d *h.Driver, ops []string, corpus bool) {
 	d.Mark()
 	var done []string
 	withheld, hits := 0, 0
+	diverged := false
 	dests := []*model.FeatureAddressType{h.FA("rem", []uint{1}, 1), h.FA("rem", []uint{1}, 2), h.FA("rem", []uint{2}, 1)}
 	reqHdr := func(ctr uint64) *model.HeaderType {
 		return &model.HeaderType{AddressSource: dests[0], AddressDestination: sw.local, MsgCounter: util.Ptr(model.MsgCounterType(ctr))}
@@ -269,12 +270,18 @@ func runSenderHistory(r *h.Report, d *h.Driver, ops []string, corpus bool) {
 		default:
 			panic("bad op " + op)
 		}
-		want := d.Ask(line)
 		r.Eval(kind, nontrivial)
+		if diverged {
+			continue // the model is off for the rest of this history; the SPEC monitor goes on
+		}
+		want := d.Ask(line)
 		if impl != want {
 			r.Mismatch(done, impl, want, "sender op "+op+" as "+line)
-			return
+			diverged = true
 		}
+	}
+	if diverged {
+		return
 	}
 	r.Traces++
 	if withheld > 0 && hits > 0 {
@@ -347,6 +354,33 @@ func TestSender(t *testing.T) {
 		many = append(many, fmt.Sprintf("req %d %d", i%3, 200+i))
 	}
 	runSenderHistory(r, d, many, true)
+	// answered requests must not count against the bound: 120 requests each answered, then 150 distinct open ones
+	var answered []string
+	for i := 0; i < 120; i++ {
+		answered = append(answered, fmt.Sprintf("req %d %d", i%3, 400+i), fmt.Sprintf("resp %d", i+1))
+	}
+	for i := 0; i < 150; i++ {
+		answered = append(answered, fmt.Sprintf("req %d %d", i%3, 600+i))
+	}
+	runSenderHistory(r, d, answered, true)
+	// the last 100 notifications stay retrievable when other sends (writes, replies, results) are interleaved:
+	// 60 notifications, 8 other sends, 40 notifications, then every notification counter is looked up, oldest first
+	var mixed []string
+	for i := 0; i < 60; i++ {
+		mixed = append(mixed, "notify")
+	}
+	for i := 0; i < 8; i++ {
+		mixed = append(mixed, fmt.Sprintf("other %d", i))
+	}
+	for i := 0; i < 40; i++ {
+		mixed = append(mixed, "notify")
+	}
+	for c := 1; c <= 108; c++ {
+		if c <= 60 || c > 68 {
+			mixed = append(mixed, fmt.Sprintf("get %d", c))
+		}
+	}
+	runSenderHistory(r, d, mixed, true)
 	rng := h.Rng(13)
 	hist := h.Scale(150, 1500)
 	for i := 0; i < hist; i++ {
